@@ -1,5 +1,6 @@
 """C07 — mutual close pays the holder its due to an owned or allowlisted destination."""
 import lib
+import gen_rustfn
 
 MANIFEST = dict(
     text="Coq theorems C07_accept_phase1 / C07_accept_phase2: for every policy, channel setup (funder or fundee, upfront "
@@ -75,7 +76,19 @@ def _wallet_dist(cases):
 
 def run(res):
     quick = res.tier == "quick"
-    lib.proof_stage(res, "C07.v", "Props.C07", PINNED)
+    # the translator regenerates Gen/TxUtilGen.v from /repo's transaction_utils.rs under the build lock, right before
+    # the theorem that relates it to the model's feerate estimate is re-checked
+    tx_report = {}
+
+    def regen():
+        tx_report.update(gen_rustfn.generate_txutil(lib.REPO))
+    try:
+        lib.proof_stage(res, "C07.v", "Props.C07", PINNED + ["C07_feerate_estimate_is_source"], pre=regen)
+    except gen_rustfn.GenError as e:
+        res.violation("the translator cannot read estimate_feerate_per_kw (a construct outside its fragment): %s" % e,
+                      {"translator": "tools/gen_rustfn.py", "source": "vls-core/src/util/transaction_utils.rs",
+                       "error": str(e), "theorem": "C07_feerate_estimate_is_source"}, has_input=False)
+    res.coverage["translated_from_source"] = tx_report
     ok, out = lib.build_coq(["theories/Model/MutualCloseCheck.vo"])
     if not ok:
         raise lib.Fail("Model/MutualCloseCheck.v does not build:\n" + out[-2000:])
